@@ -166,7 +166,10 @@ private theorem bstep_exec (fuel : Nat) (ihE : BE fuel) (ihL : BL fuel) (ihA : B
     simp only at h
     split at h
     · simp at h
-    · exact post_bal h ⟨rfl, rfl⟩
+    · rename_i s1 r1 he
+      split at h
+      · exact post_bal h (ihE _ _ _ _ _ _ he)
+      · exact post_bal h ⟨rfl, rfl⟩
   | fault k =>
     simp only at h
     refine post_bal h ?_
